@@ -146,6 +146,12 @@ def text_layout(ctx):
             if r0['stdout'] != r1['stdout'] or r0['result'] != r1['result']:
                 c.replay = {'argv': argv, 'stdin': show(stdin), 'writer': 'accepts one byte per write call', 'expected_stdout': show(r0['stdout']), 'actual_stdout': show(r1['stdout']), 'result': r1['result']}
                 c.status = 'reproduced'; c.unmodelled = None; continue
+        if c.role in ('row-layout', 'header-layout'):
+            # rows are written when they are processed (a streaming output): what precedes a fatal point is already out
+            argv = ['-o', 'csv', '--select', '.a=a', '--on-error', 'panic']; stdin = b'{"a":1} {"a":2} x {"a":3}'
+            r = run_driver(ctx, argv, stdin)
+            if show(r['stdout']) != '"a"\n1\n2\n' or not str(r['result']).startswith('err'):
+                c.replay = {'argv': argv, 'stdin': show(stdin), 'expected_stdout': '"a"\n1\n2\n', 'actual_stdout': show(r['stdout']), 'result': r['result']}; c.status = 'reproduced'; c.unmodelled = None; continue
         if c.role == 'no-columns-accepted':
             r = run_jawk(ctx, ['-o', 'csv'], b'{"a":1}')
             c.replay = {'argv': ['-o', 'csv'], 'rc': r['rc'], 'stdout': show(r['stdout'])}
